@@ -11,10 +11,10 @@ CONSTANTS K
 
 \* a  A  a1 (prefix + digit: sorts before "a:" as text, after "a" as name)  a:b  A-E-acute (ASCII capital before a
 \* non-ASCII capital)  Dz-titlecase  empty;  thorough adds b and E-acute
-Algs == {<<97>>, <<65>>, <<97,49>>, <<97,58,98>>, <<65,201>>, <<233,201>>, <<453>>, <<>>} \cup (IF K >= 3 THEN {<<98>>, <<201>>} ELSE {})
+Algs == {<<97>>, <<65>>, <<97,49>>, <<97,58,98>>, <<65,201>>, <<233,201>>, <<201,65>>, <<453>>, <<>>} \cup (IF K >= 3 THEN {<<98>>, <<201>>} ELSE {})
 Hexes == {<<>>, <<48,48>>, <<48,65>>, <<48,97>>, <<120,120>>, <<48>>}
 ByteSeqs == {<<>>, <<0>>, <<10, 255>>}
-Texts == {<<>>, <<97,58,48,48>>, <<66,58,48,65,44,97,58,102,70>>, <<97,58,48,48,44,65,58,49,49>>, <<122,122>>, <<97,58,98,58,48,48>>, <<58>>}
+Texts == {<<97,58,48,48,44,97,58,102,102>>, <<>>, <<97,58,48,48>>, <<66,58,48,65,44,97,58,102,70>>, <<97,58,48,48,44,65,58,49,49>>, <<122,122>>, <<97,58,98,58,48,48>>, <<58>>}
 Ops == {<<"insert_raw", a, h>> : a \in Algs, h \in Hexes}
        \cup {<<"insert_bytes", a, b>> : a \in Algs, b \in ByteSeqs}
        \cup {<<n, a>> : n \in {"remove", "get_raw", "get_bytes"}, a \in Algs}
@@ -48,7 +48,7 @@ RECURSIVE SpellEnum(_, _)
 SpellEnum(e, up) == IF e = <<>> THEN <<>> ELSE SpellEntry(e[1], up) \o (IF Len(e) > 1 THEN <<COMMA>> ELSE <<>>) \o SpellEnum(Tail(e), ~up)
 AsciiAlgs == \A k \in DOMAIN algs : IsAscii(k) /\ k # <<>>
 PurlOf(spelling) == PKG \o <<116,47,110,63,67,104,101,99,107,83,117,109,61>> \o spelling      \* pkg:t/n?CheckSum=
-EmitSpellings == (WellFormed /\ AsciiAlgs /\ DOMAIN algs # {}) =>
+EmitSpellings == (Small /\ WellFormed /\ DOMAIN algs # {}) =>
      \A e \in Enumerations(algs) : \A up \in BOOLEAN :
         LET s == PurlOf(SpellEnum(e, up)) IN
         /\ Agrees(ParseF(s, Generic, LowerTab), Judge(s, Generic, LowerTab))
